@@ -333,7 +333,8 @@ static bool make_op(Op& op, int n, const Shadow& SA, const std::string& profile)
     for (int i = 0; i < cnt; ++i) { Grid_Generator g = rgg(n, !have_point && (which == 0 || coin(70))); if (g.is_point()) have_point = true; gv.push_back(g); }
     // an empty receiver needs a point among the added generators (else std::invalid_argument is documented)
     bool expect_throw = false;
-    if (Aempty && !gv.empty()) { bool pt = false; for (size_t i = 0; i < gv.size(); ++i) if (gv[i].is_point()) pt = true; expect_throw = !pt; }
+    // (a generator system silently drops zero parameters: they do not count as rows)
+    if (Aempty && !gv.empty()) { bool pt = false; size_t rows = 0; for (size_t i = 0; i < gv.size(); ++i) { if (gv[i].is_point()) pt = true; if (which == 0 || !(gv[i].is_parameter() && gv[i].all_homogeneous_terms_are_zero())) ++rows; } expect_throw = !pt && rows > 0; }
     Grid_Generator_System gs; for (size_t i = 0; i < gv.size(); ++i) gs.insert(gv[i]);
     const char* nm[3] = { "add_grid_generator", "add_grid_generators", "add_recycled_grid_generators" };
     op.name = nm[which]; t << "." << nm[which] << "("; for (size_t i = 0; i < gv.size(); ++i) t << (i ? ", " : "") << str(gv[i]); t << ")"; op.text = t.str();
